@@ -164,7 +164,8 @@ def wide(atoms=('a', 'b', 'c')):
             'f(**%s)' % a, 'f(%s, **%s)' % (a, b), 'f(*%s, **%s)' % (a, b), 'f(%s, *%s, k=%s)' % (a, b, c), 'f(k=%s, **%s)' % (a, b), 'f(**%s, **%s)' % (a, b),
             '%s.m()' % a, '%s.m(%s)' % (a, b), '%s.m(%s, k=%s)' % (a, b, c), '%s.m(*%s)' % (a, b), '%s.m(k=%s)' % (a, b), '%s.p.m(%s).q' % (a, b), '%s.m(%s).n(%s)' % (a, b, c),
             'f(%s)(%s)' % (a, b), 'f(%s)[%s]' % (a, b), '%s[%s](%s)' % (a, b, c), 'f(g(%s), h(%s))' % (a, b), 'f(%s.p, k=%s.q)' % (a, b)]
-    out += ['%s[%s]' % (a, b), '%s[%s][%s]' % (a, b, c), '%s[%s, %s]' % (a, b, c), '%s[(%s, %s)]' % (a, b, c), '%s[%s:%s]' % (a, b, c), '%s[%s:]' % (a, b), '%s[:%s]' % (a, b), '%s[:]' % a,
+    out += ['%s[%s,]' % (a, b), '%s[(%s,)]' % (a, b), '%s[%s,][%s]' % (a, b, c), '%s[(%s + %s,)]' % (a, b, c), '%s[1,]' % a,
+            '%s[%s]' % (a, b), '%s[%s][%s]' % (a, b, c), '%s[%s, %s]' % (a, b, c), '%s[(%s, %s)]' % (a, b, c), '%s[%s:%s]' % (a, b, c), '%s[%s:]' % (a, b), '%s[:%s]' % (a, b), '%s[:]' % a,
             '%s[::%s]' % (a, b), '%s[%s::%s]' % (a, b, c), '%s[:%s:%s]' % (a, b, c), '%s[%s:%s:%s]' % (a, b, c, a), '%s[%s:%s, %s]' % (a, b, c, a), '%s[%s, %s:%s]' % (a, b, c, a),
             '%s[::2, 1:]' % a, '%s[-1]' % a, '%s[-1:]' % a, '%s[:-1]' % a, '%s[1:-1]' % a, '%s[...]' % a, "%s['k']" % a, '%s[%s.p:%s.q]' % (a, b, c), '%s[-%s:]' % (a, b)]
     out += ['(lambda: %s)' % a, '(lambda y: y + %s)' % a, '(lambda y=%s: y)' % a, '(lambda y=%s: y + %s)' % (a, b), '(lambda y=%s, z=%s: y + z)' % (a, b), '(lambda y, z=%s: y + z + %s)' % (a, b),
